@@ -253,7 +253,8 @@ impl Prop for C03 {
         let kk = k_of(&tree).expect("memory length");
         let n_sum = tree.window_sum();
         // exact mode: dyadic scale and values on a fine dyadic grid, so most rationals stay small
-        let s_scale = if exact { *r.pick(&[0.0009765625, 0.125, 1.0, 1.0, 8.0, 1024.0]) } else { *r.pick(&[0.1, 1.0, 1.0, 10.0]) };
+        // (2^-60 and 2^40 are there because 'all finite inputs' includes the very small and the very large)
+        let s_scale = if exact { *r.pick(&[0.0009765625, 0.125, 1.0, 1.0, 1.0, 8.0, 1024.0, 8.673617379884035e-19, 1099511627776.0]) } else { *r.pick(&[0.1, 1.0, 1.0, 10.0]) };
         let quant = |v: &mut Vec<f64>| {
             if exact {
                 for x in v.iter_mut() {
@@ -296,7 +297,7 @@ impl Prop for C03 {
         };
         let shape = r.below(SHAPES.len()) as u8;
         let base = gen_shape(r, shape, base_len, s_scale, !exact);
-        let spike = if exact { *r.pick(&[1e3, 1e6, 1e12]) } else { 20.0 };
+        let spike = if exact { if s_scale > 1e6 { 1e3 } else { *r.pick(&[1e3, 1e6, 1e12]) } } else { 20.0 };
         let extra = if exact { 300 } else { 500 };
         let ca = FaultCfg::swarm(r, extra, spike);
         let cb = FaultCfg::swarm(r, extra, spike);
@@ -313,7 +314,21 @@ impl Prop for C03 {
             sc.stat("spike", f.spike);
             sc.stat("extra_prefix", f.extra);
         }
-        sc.feeds.push(Feed::Lit(pa));
+        // ultra-long history for one replica (0.15% of runs): a compact generator feed instead of literal values
+        let ultra = r.chance(0.0015);
+        if ultra {
+            let len = loop {
+                let l = crate::feed::long_len(r);
+                if !exact || l < 200_000 {
+                    break l;
+                }
+            };
+            let g = Feed::Gen { seed: r.next_u64(), shape: r.below(SHAPES.len()) as u8, len, scale: s_scale, positive: !exact, quant: if exact { s_scale / 64.0 } else { 0.0 } };
+            sc.feeds.push(g);
+            sc.stat("extra_prefix", len as u64);
+        } else {
+            sc.feeds.push(Feed::Lit(pa));
+        }
         sc.feeds.push(Feed::Lit(pb));
         sc.feeds.push(Feed::Lit(suffix));
         let nb = r.range(1, 16);
@@ -349,7 +364,7 @@ impl Prop for C03 {
             out.invalid = Some(format!("suffix shorter than K={}", kk));
             return out;
         }
-        if pa.iter().chain(pb.iter()).chain(suffix.iter()).any(|x| !x.is_finite() || x.abs() > 1e16) {
+        if pa.iter().chain(pb.iter()).chain(suffix.iter()).any(|x| !x.is_finite() || x.abs() > 1e30) {
             out.invalid = Some("non-finite or absurdly large input".into());
             return out;
         }
@@ -370,7 +385,7 @@ impl Prop for C03 {
                 out.invalid = Some("dynamic range above 1e4 in f64 mode".into());
                 return out;
             }
-            if pa.len() + suffix.len() > 200_000 || pb.len() + suffix.len() > 200_000 {
+            if pa.len() + suffix.len() > 1_300_000 || pb.len() + suffix.len() > 1_300_000 {
                 out.invalid = Some("stream too long for f64 mode".into());
                 return out;
             }
@@ -511,6 +526,12 @@ impl Prop for C03 {
         if pa.len().max(pb.len()) >= 5000 {
             out.stats.hit("reach.prefix_5000_plus");
         }
+        if pa.len().max(pb.len()) >= 66_000 {
+            out.stats.hit("reach.prefix_66k_plus");
+        }
+        if pa.len().max(pb.len()) >= 1_050_000 {
+            out.stats.hit("reach.prefix_1M_plus");
+        }
         if suffix.windows(2).all(|w| w[0] == w[1]) && suffix.len() > 1 {
             out.stats.hit("reach.flat_suffix");
         }
@@ -560,7 +581,7 @@ impl Prop for C03 {
     }
 
     fn rule(&self) -> String {
-        "Views cycle systematically through Sma, Cumulative, Min, Max, Roc, WelfordOnline (last, mean(), variance()), Vst, Vsct, HLNormalizer, BinaryEntropy, CenterOfGravity, CorrelationTrendIndicator, NoiseEliminationTechnology, Rsi, MyRSI, Alma (default and custom), PFE over {Sma, Alma}; 30% (thorough 50%) of the exact-mode runs are two-level chains of them (K = K_outer + K_inner - 1). Two replicas of the same tree: one base stream (0-300 values, 5% 400-1500, 3% 3 000-60 000) gets an independent fault realisation per replica (drop, duplicate, reorder, corrupt, spike bursts up to 1e12 S in exact mode, up to 300/500 extra prefix values), then both receive the same clean suffix of K..K+3N values (grid with ties, flat, two-valued, zero-laden, zero-sum, volatile-then-flat, random walk, step); deliveries of the two replicas are interleaved by a random bit schedule. K = N; N+1 for Rsi, MyRSI, Roc; 2N for Alma; N+K(ma)-1 for PFE. Oracle: at every suffix step s >= K the two outputs are equal. One run in six is executed with the library instantiated at the exact scalar Q (rational arithmetic; no tolerance) and decides; the others run at f64 for the views without error amplification (tolerance 1e-6 of the output scale, dynamic range <= 1e4, conditioned suffix for Rsi/MyRSI/Roc). Steps where MyRSI's N most recent changes are all zero or Roc's base is 0 are exempt from the comparison (computed from the suffix), but there the exception is verified instead: each replica must report exactly its own previous output. distinct = distinct (topology, feed lengths, schedule bits); non-trivial = the two prefixes differ and at least one step was compared."
+        "Views cycle systematically through Sma, Cumulative, Min, Max, Roc, WelfordOnline (last, mean(), variance()), Vst, Vsct, HLNormalizer, BinaryEntropy, CenterOfGravity, CorrelationTrendIndicator, NoiseEliminationTechnology, Rsi, MyRSI, Alma (default and custom), PFE over {Sma, Alma}; 30% (thorough 50%) of the exact-mode runs are two-level chains of them (K = K_outer + K_inner - 1). Two replicas of the same tree: one base stream (0-300 values, 5% 400-1500, 3% 3 000-60 000; 0.15% of runs give one replica a generated history of 4.2k-20k, 66-80k, 132-150k or (f64 mode) 1.05-1.1M values) gets an independent fault realisation per replica (drop, duplicate, reorder, corrupt, spike bursts up to 1e12 S in exact mode, up to 300/500 extra prefix values), then both receive the same clean suffix of K..K+3N values (grid with ties, flat, two-valued, zero-laden, zero-sum, volatile-then-flat, random walk, step); deliveries of the two replicas are interleaved by a random bit schedule. K = N; N+1 for Rsi, MyRSI, Roc; 2N for Alma; N+K(ma)-1 for PFE. Oracle: at every suffix step s >= K the two outputs are equal. One run in six is executed with the library instantiated at the exact scalar Q (rational arithmetic; no tolerance) and decides; the others run at f64 for the views without error amplification (tolerance 1e-6 of the output scale, dynamic range <= 1e4, conditioned suffix for Rsi/MyRSI/Roc). Steps where MyRSI's N most recent changes are all zero or Roc's base is 0 are exempt from the comparison (computed from the suffix), but there the exception is verified instead: each replica must report exactly its own previous output. distinct = distinct (topology, feed lengths, schedule bits); non-trivial = the two prefixes differ and at least one step was compared."
             .into()
     }
     fn assumptions(&self) -> Vec<String> {
@@ -572,7 +593,7 @@ impl Prop for C03 {
         ]
     }
     fn must_reach(&self, t: Tier) -> Vec<&'static str> {
-        let mut v = vec!["reach.prefixes_differ", "reach.prefix_lengths_differ", "reach.one_replica_without_prefix", "reach.prefix_1000_plus", "reach.prefix_5000_plus", "reach.flat_suffix", "oracle.hold_steps_verified", "fault.drop", "fault.dup", "fault.swap", "fault.corrupt", "fault.spike", "fault.extra_prefix", "oracle.steps_compared_exact", "oracle.steps_compared_f64", "skip.steps_exempt_hold"];
+        let mut v = vec!["reach.prefixes_differ", "reach.prefix_lengths_differ", "reach.one_replica_without_prefix", "reach.prefix_1000_plus", "reach.prefix_5000_plus", "reach.prefix_66k_plus", "reach.flat_suffix", "oracle.hold_steps_verified", "fault.drop", "fault.dup", "fault.swap", "fault.corrupt", "fault.spike", "fault.extra_prefix", "oracle.steps_compared_exact", "oracle.steps_compared_f64", "skip.steps_exempt_hold"];
         let _ = t;
         v.push("reach.two_level_chain");
         v
